@@ -25,7 +25,7 @@ JEdit(r) ==
         cl == <<
           <<"one_edit_of_an_enabled_kind_with_reindexed_exclusions", OneEdit(r.w, excl, kinds, tb, r.w2, excl2)>>,
           <<"exclusions_within_the_new_word", ExclWithin(r.w2, excl2)>>,
-          <<"excluded_characters_survive", {r.w[x + 1] : x \in excl} \subseteq {r.w2[x + 1] : x \in {y \in excl2 : y < Len(r.w2)}}>>
+          <<"excluded_characters_survive", {r.w[x + 1] : x \in {y \in excl : y < Len(r.w)}} \subseteq {r.w2[x + 1] : x \in {y \in excl2 : y < Len(r.w2)}}>>
         >>
         bad == SelectSeq(cl, LAMBDA x : ~x[2])
     IN [why |-> [k \in 1..Len(bad) |-> bad[k][1]],
